@@ -226,7 +226,7 @@ def run(chk):
         chk.ob("R5.rotation", st.path, "index wraps to 0 when it reaches targets.len()", wrap, "the rotation index is not reset at the end of the target list (next request indexes out of bounds)")
         ch = st.calls_to(r"rand::Choose>::choose$|Choose::choose$")
         chk.ob("R5.rotation", st.path, "random mode chooses from the configured targets", any(desc_contains(core.describe(prog, st, t["args"][0]), lambda z: z[0] == "field" and z[2] == ti) for _, t in ch), "")
-
+    _typing_witness(chk)
 
 def _copies(b, a, src):
     seen = set()
@@ -247,3 +247,13 @@ def _copies(b, a, src):
 def desc_hir_502(val):
     s = str(val)
     return "BadGateway" in s and "Response::empty" in s or "BadGateway" in s and "Response::new" in s
+
+
+def _typing_witness(chk):
+    """thorough tier: compile-fail witness with compiling twin (rustdoc `compile_fail,E0xxx` on nightly)."""
+    if chk.tier != "thorough":
+        return
+    from .. import witness
+    ok, res = witness.run("C09")
+    chk.extra["typing_witness"] = res
+    chk.ob("R4.typing_witness", "witness/typing", "LoadBalancer::select_target does not type-check through a shared reference (compile_fail E0596 + twin)", ok, "select_target no longer needs &mut: concurrent selections are not serialised by the type: " + str(res)[:300])
